@@ -244,3 +244,35 @@ func VerifC18UpdateTSS() {
 	got, _ := k.GetClientState(ctx, chain)
 	rt.Assert("L5-tss-client-takes-the-header's-key", got.(*tsstypes.ClientState).TssAddress == hdr.TssAddress)
 }
+
+// VerifC18ToggleLeavesOtherClientsUntouched: a lifecycle operation for one chain name changes nothing under any other chain
+// name: two clients under arbitrary valid names of 3 and 3..4 bytes (one name may extend the other); after a successful
+// toggle of the first, the second's client state, consensus state and metadata are what they were, and its name is still in
+// use.
+func VerifC18ToggleLeavesOtherClientsUntouched() {
+	rt.Opt("structured-keys")
+	ctx := rt.EmptyCtx()
+	k := NewKeeper(rt.Codec(), rt.StoreKey(host.StoreKey), paramtypes.Subspace{}, nil)
+	a := rt.StrN("chainA", 3)
+	b := rt.StrN("chainB", 3+rt.IntRange("chainB.extraBytes", 0, 1))
+	rt.Assume(host.ClientIdentifierValidator(a) == nil && host.ClientIdentifierValidator(b) == nil && a != b)
+	ca, consA := freshClient("a")
+	cb, consB := freshClient("b")
+	k.SetClientState(ctx, a, ca)
+	k.SetClientConsensusState(ctx, a, ca.Latest, consA)
+	k.SetClientState(ctx, b, cb)
+	k.SetClientConsensusState(ctx, b, cb.Latest, consB)
+	k.ClientStore(ctx, b).Set([]byte("setUpBy"), sdk.Uint64ToBigEndian(cb.ID))
+	c, cons := freshClient("new")
+	pa, pb := proposalAnys(c, cons)
+	_, err := k.HandleToggleClient(ctx, &types.ToggleClientProposal{Title: "t", Description: "d", ChainName: a, ClientState: pa, ConsensusState: pb})
+	if err != nil {
+		return
+	}
+	rt.Reach("toggled")
+	got, found := k.GetClientState(ctx, b)
+	rt.Assert("L6-other-client-state-untouched", found && got.(*lcClient).ID == cb.ID)
+	gc, found := k.GetClientConsensusState(ctx, b, cb.Latest)
+	rt.Assert("L6-other-consensus-state-untouched", found && gc.(*lcCons).ID == consB.ID)
+	rt.Assert("L6-other-metadata-untouched", rt.BytesEq(k.ClientStore(ctx, b).Get([]byte("setUpBy")), sdk.Uint64ToBigEndian(cb.ID)))
+}
